@@ -7,6 +7,8 @@ tree nodes: {"t":"T","i":k} tensor slot from the pool | {"t":"leaf","v":x} | {"t
 ops: ["get_list",u] ["get_flat",u] ["cons_list",u,mode,k,mutate] ["cons_flat",u,mode,layout,mutate]
      mode in ok | short | long | badshape ; u = unique flag ; layout of the flat argument in contig | offset | strided | column
      mutate: after a successful rebuild the caller edits, in place, every mutable non-tensor leaf of the RESULT
+     ["edit_orig",0]: the caller edits ITS OWN object (non-tensor values replaced, containers grown) after handing it to Packer;
+     "obj" nodes with "callable": true are instances of a class defining __call__
 Oracle: model traversal written here (independent of xitorch), see DESIGN.md C20.
 """
 from __future__ import annotations
@@ -25,7 +27,8 @@ RULE = ("Hypothesis RuleBasedStateMachine: one Packer per history over a generat
         "construct_* on a structure with >=2 tensor slots; distinct by (structure shape, aliasing pattern, op sequence). "
         "The flat argument of construct_from_tensor is supplied contiguous, as an offset slice, with stride 2 or as a matrix column; "
         "structures carry mutable non-tensor content (sets, bytearrays, numpy arrays, lists inside tuples) that the caller edits in "
-        "the rebuilt structure between rebuilds.")
+        "the rebuilt structure between rebuilds; the caller also edits its own original object (values replaced, containers grown) at any "
+        "point after handing it over - the Packer keeps the structure it was given; attribute objects include callable ones.")
 ASSUMPTIONS = [
     "containers are tree-shaped (a list/dict/object appears once); only tensors are aliased",
     "tensors inside tuples are opaque to Packer (documented traversal: list elements, dict values, __dict__)",
@@ -41,6 +44,16 @@ class Obj:
 
 class Obj2:
     clsattr = 3
+
+
+class ObjCall:
+    """an attribute-bearing object that happens to be callable (as every torch.nn.Module, functor or bound configuration object is)"""
+
+    def __call__(self, x):
+        return x
+
+
+OBJ_TYPES = (Obj, Obj2, ObjCall)
 
 
 # ------------------------------------------------------------------ building / model
@@ -60,7 +73,7 @@ def build(tree, pool):
     if t == "dict":
         return {k: build(c, pool) for k, c in zip(tree["k"], tree["c"])}
     if t == "obj":
-        o = Obj() if len(tree["k"]) % 2 == 0 else Obj2()
+        o = ObjCall() if tree.get("callable") else Obj() if len(tree["k"]) % 2 == 0 else Obj2()
         for k, c in zip(tree["k"], tree["c"]):
             setattr(o, k, build(c, pool))
         return o
@@ -121,9 +134,42 @@ def mutate_leaves(obj):
     elif isinstance(obj, dict):
         for e in obj.values():
             n += mutate_leaves(e)
-    elif isinstance(obj, (Obj, Obj2)):
+    elif isinstance(obj, OBJ_TYPES):
         for e in obj.__dict__.values():
             n += mutate_leaves(e)
+    return n
+
+
+def edit_original(obj):
+    """what the caller may do with ITS OWN object after handing it to Packer: change non-tensor values, grow containers"""
+    n = mutate_leaves(obj)
+    if isinstance(obj, list):
+        for i, e in enumerate(obj):
+            if isinstance(e, (int, float, str)) and not isinstance(e, bool):
+                obj[i] = 777
+                n += 1
+            else:
+                n += edit_original(e) if isinstance(e, (list, dict) + OBJ_TYPES) else 0
+        obj.append(555)
+        n += 1
+    elif isinstance(obj, dict):
+        for k, e in list(obj.items()):
+            if isinstance(e, (int, float, str)) and not isinstance(e, bool):
+                obj[k] = 777
+                n += 1
+            else:
+                n += edit_original(e) if isinstance(e, (list, dict) + OBJ_TYPES) else 0
+        obj["zz_added"] = 555
+        n += 1
+    elif isinstance(obj, OBJ_TYPES):
+        for k, e in list(obj.__dict__.items()):
+            if isinstance(e, (int, float, str)) and not isinstance(e, bool):
+                obj.__dict__[k] = 777
+                n += 1
+            else:
+                n += edit_original(e) if isinstance(e, (list, dict) + OBJ_TYPES) else 0
+        obj.zz_added = 555
+        n += 1
     return n
 
 
@@ -151,7 +197,7 @@ def snapshot(obj, out):
         out.append(tuple(obj.keys()))
         for e in obj.values():
             snapshot(e, out)
-    elif isinstance(obj, (Obj, Obj2)):
+    elif isinstance(obj, OBJ_TYPES):
         out.append(tuple(obj.__dict__.keys()))
         for e in obj.__dict__.values():
             snapshot(e, out)
@@ -182,7 +228,7 @@ def container_ids(obj, out):
         out.add(id(obj))
         for e in obj.values():
             container_ids(e, out)
-    elif isinstance(obj, (Obj, Obj2)):
+    elif isinstance(obj, OBJ_TYPES):
         out.add(id(obj))
         for e in obj.__dict__.values():
             container_ids(e, out)
@@ -299,6 +345,7 @@ def run_case(case):
     result_containers = set()
     n_ok_construct = 0
     n_mutated = 0
+    n_orig_edits = 0
     layouts_used = set()
     gsup = torch.Generator().manual_seed(999)
 
@@ -455,6 +502,10 @@ def run_case(case):
                 kept.append(new)
                 if len(op) > 4 and op[4]:
                     n_mutated += mutate_leaves(new)
+        elif name == "edit_orig":
+            # the caller goes on using (and changing) its own object; the Packer holds the structure as it was handed over
+            n_orig_edits += edit_original(obj)
+            snap0 = snapshot(obj, [])
         else:
             raise ValueError(op)
         # the original object must be untouched after every step
@@ -471,7 +522,7 @@ def run_case(case):
     nalias = nslots - len(uniq_idx)
     labels = ["slots=%s" % ("0" if nslots == 0 else "1" if nslots == 1 else "2-4" if nslots <= 4 else "5+"),
               "aliased" if nalias else "noalias", "root=" + tree["t"],
-              "caller_edited_result=%s" % (n_mutated > 0)] + ["flat_layout=" + x for x in sorted(layouts_used)]
+              "caller_edited_result=%s" % (n_mutated > 0), "caller_edited_original=%s" % (n_orig_edits > 0)] + ["flat_layout=" + x for x in sorted(layouts_used)]
     nontrivial = n_ok_construct > 0 and nslots >= 2
     return ok(labels=labels, nontrivial=nontrivial)
 
@@ -563,7 +614,10 @@ def _tree(draw, depth):
     if kind == "list":
         return {"t": "list", "c": children}
     keys = draw(st.lists(_keys, min_size=n, max_size=n, unique=True))
-    return {"t": kind, "k": keys, "c": children}
+    node = {"t": kind, "k": keys, "c": children}
+    if kind == "obj" and draw(st.integers(0, 2)) == 0:
+        node["callable"] = True
+    return node
 
 
 struct_st = st.one_of(
@@ -616,6 +670,10 @@ def machine(holder):
         def cons_flat(self, u, mode, layout, mut):
             self.case["ops"].append(["cons_flat", u, mode, layout, mut])
 
+        @rule()
+        def edit_orig(self):
+            self.case["ops"].append(["edit_orig", 0])
+
         def teardown(self):
             if self.case is not None:
                 holder["submit"](self.case)
@@ -630,6 +688,8 @@ def oneshot_st(draw):
     flat = draw(st.booleans())
     last = ["cons_flat", u, "ok", draw(st.sampled_from(LAYOUTS)), True] if flat else ["cons_list", u, "ok", 0, True]
     ops = [["get_flat" if flat else "get_list", u], last]
+    if draw(st.integers(0, 3)) == 0:    # the caller edits its own object between handing it over and the first rebuild
+        ops.insert(draw(st.integers(0, 1)), ["edit_orig", 0])
     if draw(st.booleans()):     # rebuild, let the caller edit the result, rebuild again
         ops.append(list(last))
     return {"struct": draw(struct_st), "pool": draw(pool_st()), "ops": ops}
